@@ -94,7 +94,22 @@ func reenterData(r *formula.Runner) map[string]interface{} {
 func dataConfig(name string) map[string]interface{} {
 	switch name {
 	case "zoo":
-		return zooData(zooVals)
+		d := zooData(zooVals)
+		// host functions with unsigned integer parameters (no builtin has one)
+		d["tku"] = func(n uint64) (uint64, error) { return n, nil }
+		d["tk8"] = func(n uint8, rest ...uint) (int, error) { return len(rest), nil }
+		return d
+	case "cuts":
+		// a list that contains itself, next to shorter and longer cuts of the same backing array
+		s := make([]interface{}, 3)
+		s[0], s[1], s[2] = 1.0, nil, "z"
+		s[1] = s
+		d := sigmaEvalData()
+		d["cy1"] = []interface{}{s[:1], s}
+		d["cy2"] = []interface{}{s, s[:1]}
+		d["cy3"] = map[string]interface{}{"a": s[:1], "b": s[:3], "c": s[:2]}
+		d["ok1"] = []interface{}{s[:1], s[:1], s[2:]}
+		return d
 	case "sigma":
 		return sigmaEvalData()
 	case "none":
@@ -308,6 +323,21 @@ func runC03(w *eng.W) {
 			"againErr() ?? again()", "x + again() * again2()", "m.f(again())", "again(1)", "again2(1)"} {
 			do("re-entrant", src, "reenter")
 		}
+	}
+	if w.Take() {
+		for _, v := range []string{"cy1", "cy2", "cy3", "ok1", "[cy1, ok1]", "[ok1, cy2]"} {
+			for _, form := range []string{"toString(%s)", "'' + %s", "join([%s], ',')", "%s == 'a'", "len(%s)", "[%s, 1] + ''", "$l = %s, toString($l) + toString($l)"} {
+				do("cyclic-cuts", strings.Replace(form, "%s", v, -1), "cuts")
+			}
+		}
+	}
+	for _, v := range V {
+		if !w.Take() {
+			continue
+		}
+		do("unsigned-param", "tku("+v.Expr+")", "zoo")
+		do("unsigned-param", "tk8("+v.Expr+", "+v.Expr+")", "zoo")
+		do("unsigned-param", "tk8(1, "+v.Expr+", 2)", "zoo")
 	}
 	// (h) exponent walks: quotients and products of literals at the edge of the exponent range, repeated until
 	// the exponent has left the decimal library's range (10^18) and the range of a 64-bit integer, then used
